@@ -3,6 +3,8 @@
 // the look-up and by the operations / handler calls on it (the convenience channel holds nothing): a hold taken after the look-up has
 // given its own back finds the entry torn down and freed. The run poisons freed memory (MALLOC_PERTURB_) and now and then delays the
 // thread that is about to suspend a queue (the hold is a suspension of the entry's close queue), so that a late hold lands on freed memory.
+// Also two reads on a pipe that has data for the first only: the first completes on EAGAIN with the second queued behind it and no
+// readiness source yet (F38: the source was created from the completed, freed operation).
 // Oracle: every handler is called exactly once with no error, a read of zero bytes delivers empty data, a write of nothing reports
 // nothing unwritten, the bytes of the ordinary transfers arrive, nothing traps.
 // usage: c14_conv0 <seed> <iterations>
@@ -23,13 +25,13 @@ static atomic_long delays;
 static void ycb(const volatile void *addr, const char *func, int line){ (void)addr;(void)line; if(!strstr(func,"suspend")) return; if(rnd()%8==0){ atomic_fetch_add(&delays,1); usleep((useconds_t)(20+rnd()%200)); } }
 static atomic_int viol; static char vmsg[300];
 static void fail(const char *m, long a, long b, long c){ if(!atomic_exchange(&viol,1)) snprintf(vmsg,sizeof vmsg,"%s %ld %ld %ld",m,a,b,c); }
-static void on_crash(int sig){ char b[300]; int n=snprintf(b,sizeof b,"ORACLE VIOL seed=%llu the library trapped or crashed (signal %d) during dispatch_read / dispatch_write calls with nothing to transfer (a hold on the descriptor entry taken after the entry was freed)\n",(unsigned long long)seed,sig); if(n>0) (void)!write(1,b,(size_t)n); _exit(1); }
+static void on_crash(int sig){ char b[300]; int n=snprintf(b,sizeof b,"ORACLE VIOL seed=%llu the library trapped or crashed (signal %d) during convenience dispatch_read / dispatch_write calls (freed memory is poisoned in this run: a descriptor entry or an operation was used after it had been freed)\n",(unsigned long long)seed,sig); if(n>0) (void)!write(1,b,(size_t)n); _exit(1); }
 int main(int argc,char**argv){ seed=argc>1?strtoull(argv[1],0,0):1; int iters=argc>2?atoi(argv[2]):4000;
   if(!getenv("MALLOC_PERTURB_")){ setenv("MALLOC_PERTURB_","165",1); execv("/proc/self/exe",argv); }
   signal(SIGILL,on_crash); signal(SIGSEGV,on_crash); signal(SIGABRT,on_crash); signal(SIGBUS,on_crash); signal(SIGPIPE,SIG_IGN);
   dispatch_queue_t q=dispatch_get_global_queue(0,0), sq=dispatch_queue_create("conv0.s",NULL); dispatch_group_t g=dispatch_group_create();
   __block _Atomic long calls=0, want=0; _dispatch_verif_yield_cb=ycb;
-  for(int i=0;i<iters && !viol;i++){ int pp[2]; if(pipe(pp)) break; int p0=pp[0], p1=pp[1]; int shape=(int)(rnd()%6); dispatch_queue_t hq = rnd()%2 ? q : sq;
+  for(int i=0;i<iters && !viol;i++){ int pp[2]; if(pipe(pp)) break; int p0=pp[0], p1=pp[1]; int shape=(int)(rnd()%7); dispatch_queue_t hq = rnd()%2 ? q : sq;
     _Atomic int *lp=calloc(1,sizeof *lp);      // never freed: a few bytes per iteration
     void (^fin)(void) = ^{ if(atomic_fetch_sub(lp,1)==1){ close(p0); close(p1); } dispatch_group_leave(g); };
     int n = shape==4 ? 2 : shape==5 ? 3 : 1; atomic_store(lp,n); atomic_fetch_add(&want,n);
@@ -47,6 +49,14 @@ int main(int argc,char**argv){ seed=argc>1?strtoull(argv[1],0,0):1; int iters=ar
     if(shape==3){                          // two reads of zero bytes on one descriptor, back to back
       atomic_store(lp,2); atomic_fetch_add(&want,1); dispatch_group_enter(g);
       for(int k=0;k<2;k++) dispatch_read(p0,0,hq,^(dispatch_data_t d,int err){ atomic_fetch_add(&calls,1); if(err||!d||dispatch_data_get_size(d)) fail("dispatch_read of zero bytes (second of two): error / size",err,d?(long)dispatch_data_get_size(d):-1,i); fin(); }); }
+    if(shape==6){                          // two reads of up to 16 bytes with 8 in the pipe: the first takes them and completes on EAGAIN with the second queued behind it (no readiness source yet); 8 more bytes, then end of file
+      atomic_store(lp,2); atomic_fetch_add(&want,1); dispatch_group_enter(g); if(write(p1,"abcdefgh",8)!=8){}
+      _Atomic long *tot=calloc(1,sizeof *tot);
+      for(int k=0;k<2;k++) dispatch_read(p0,16,hq,^(dispatch_data_t d,int err){ atomic_fetch_add(&calls,1); long n=d?(long)dispatch_data_get_size(d):0; long t=atomic_fetch_add(tot,n)+n;
+        if(err) fail("dispatch_read of up to 16 bytes from a pipe: error / size / iteration",err,n,i);
+        if(atomic_load(lp)==1 && t!=16) fail("two dispatch_read calls on a pipe that carried 16 bytes before end of file delivered another total: total / iteration",t,i,0);
+        if(atomic_fetch_sub(lp,1)==1) close(p0); dispatch_group_leave(g); });
+      usleep((useconds_t)(rnd()%7*100)); if(write(p1,"ijklmnop",8)!=8){} usleep((useconds_t)(rnd()%5*100)); close(p1); }
     if((i&31)==31 && dispatch_group_wait(g,dispatch_time(DISPATCH_TIME_NOW,20ll*1000000000ll))){ fail("handlers of convenience calls were not all called within 20 s: iteration / called / expected",i,atomic_load(&calls),atomic_load(&want)); break; } }
   if(!viol && dispatch_group_wait(g,dispatch_time(DISPATCH_TIME_NOW,20ll*1000000000ll))) fail("handlers of convenience calls were not all called within 20 s: called / expected",atomic_load(&calls),atomic_load(&want),0);
   _dispatch_verif_yield_cb=0; usleep(20000);
